@@ -140,4 +140,17 @@ theorem EndInv.heldAmount_zero (pl : Nat) : heldAmount w pl p = 0 := by
 
 end
 
+/-- every command of a running, unsuspended process keeps the combined invariant: it also holds at every command
+    boundary inside a dispatch (in particular right before a `stop`) -/
+theorem EndInv.execCmd {w : World} (h : EndInv w) (hside : S3.SideOk w) (p : Pid) (hp : p < w.procs.size)
+    (hrun : (w.proc p).status = .running) (hb : (w.proc p).blocked = none) (c : Cmd) (hok : S3.CmdOk c) :
+    EndInv (Sim.execCmd w p c).1 := by
+  have hpa : w.pa p = [] := by
+    rcases h.full.all.wait.frame p with e | ⟨q, _, b⟩
+    · exact e
+    · rw [hb] at b; cases b
+  obtain ⟨fr1, h1⟩ := S3.PInv.execCmd_ex (p := p) h.p hb hrun c
+  obtain ⟨fr2, h2⟩ := S3.GInv.execCmd_ex (p := p) h.g hb hp hside.sep c hok
+  exact ⟨fullinv_execCmd h.full p hp hrun hpa c, h1.toB, h2.toB, (S3.NRr.execCmd ⟨h.nr, hrun⟩ c).1⟩
+
 end CimbaModel.Sim
